@@ -38,10 +38,10 @@ func match(doc, filter types.Value) (bool, error) {
 
 		switch key.String() {
 		case "$exists":
-			if reflect.ValueOf(value).IsZero() {
-				return value == nil, nil
+			exists := value != nil && !reflect.ValueOf(value).IsZero()
+			if (doc != nil) != exists {
+				return false, nil
 			}
-			return value != nil, nil
 		case "$eq":
 			if !types.Equal(doc, value) {
 				return false, nil
